@@ -10,7 +10,10 @@ RULE = ("every run starts with the repo's own unit-test vectors (sharpe.rs, sort
         "the code panics: zero entry price or zero quantity). The corpus (corpus/C16M/review_B.ops, run first) holds the hand-made inputs of the theorem review: zero-cost exits "
         "(panic, also after a generate), the strictly losing history whose Calmar ratio is Decimal::MAX, the Daily <-> Annual252 round trip, negative zero, negative entry prices, "
         "the half-unit saturation boundary, i64-sized TimeDeltas, a zero-length current interval, backwards time. Thorough additionally enumerates scale over 4 metrics x 10 x 10 intervals x 9 values (3 600 ops) and every "
-        "(risk-free, mean, risk) sign / zero combination of calculate and calculate-then-scale (3 x 144 ops). A case is distinct by the SHA-1 of its "
+        "(risk-free, mean, risk) sign / zero combination of calculate and calculate-then-scale (3 x 144 ops). After the random cases a separately seeded input-domain family of tear-sheet cases (`d..`, N/15 cases, four classes cycled; "
+        "the random cases are unchanged by it): (0) 80-150 (thorough -300) closed positions with a request every 40, (1) negative entry price / negative size / both (exact notionals), "
+        "(2) NEGATIVE start time, exits before / at the start, a whole history at one instant (trading period clamped to 1 s), (3) runs of 2-6 identical closed positions; "
+        "corpus/C16M/domain.ops holds one hand-made case for (1)-(3). A case is distinct by the SHA-1 of its "
         "op lines and non-trivial when the implementation's observation block changes at least once")
 ASSUMPTIONS = [
     "exact rational arithmetic: rust_decimal rounding is not modelled; every metric value is compared to 1e-18 (absolute or relative); the sentinels Decimal::MAX / Decimal::MIN are compared literally",
